@@ -300,3 +300,113 @@ def untuple(stmts):
                 continue
         out.append(s)
     return out
+
+
+# --------------------------------------------------------------------------- guard dominance
+def _terminates(body):
+    return bool(body) and isinstance(body[-1], (ast.Return, ast.Raise, ast.Continue, ast.Break))
+
+
+def guard_implies(test, positive, atom_test):
+    """Does `test` evaluating to `positive` establish the fact that atom_test(sub_test, polarity) recognises?
+    and: any conjunct suffices when true; or: any disjunct suffices when false; not: flips."""
+    if isinstance(test, ast.BoolOp):
+        if isinstance(test.op, ast.And) and positive:
+            return any(guard_implies(v, True, atom_test) for v in test.values)
+        if isinstance(test.op, ast.Or) and not positive:
+            return any(guard_implies(v, False, atom_test) for v in test.values)
+        return False
+    if isinstance(test, ast.UnaryOp) and isinstance(test.op, ast.Not):
+        return guard_implies(test.operand, not positive, atom_test)
+    return bool(atom_test(test, positive))
+
+
+def dominated(use, fn, atom_test, handler_ok=None):
+    """Is the expression node `use` (inside function `fn`, parent links present) reached only when the fact holds?
+    Recognised: the body of `if <fact>`, the else of `if <not fact>`, later operands of `<fact> and ...`, a conditional
+    expression arm, statements after `if <not fact>: return/raise/continue/break` in the same or an enclosing block;
+    optionally a try whose handlers satisfy handler_ok(set of type names)."""
+    from .excflow import handler_types
+
+    node = use
+    while node is not fn and node is not None:
+        p = getattr(node, "_parent", None)
+        if p is None:
+            return False
+        if isinstance(p, (ast.If, ast.IfExp, ast.While)):
+            body = p.body if isinstance(p.body, list) else [p.body]
+            orelse = p.orelse if isinstance(p.orelse, list) else [p.orelse]
+            if any(node is b for b in body) and guard_implies(p.test, True, atom_test):
+                return True
+            if not isinstance(p, ast.While) and any(node is b for b in orelse) and guard_implies(p.test, False, atom_test):
+                return True
+        if isinstance(p, ast.BoolOp):
+            i = [k for k, v in enumerate(p.values) if v is node]
+            if i and isinstance(p.op, ast.And) and any(guard_implies(v, True, atom_test) for v in p.values[:i[0]]):
+                return True
+            if i and isinstance(p.op, ast.Or) and any(guard_implies(v, False, atom_test) for v in p.values[:i[0]]):
+                return True
+        if handler_ok is not None and isinstance(p, ast.Try) and any(node is b for b in p.body):
+            types = set()
+            for h in p.handlers:
+                types |= handler_types(h)
+            if handler_ok(types):
+                return True
+        for field in ("body", "orelse", "finalbody"):
+            blk = getattr(p, field, None)
+            if isinstance(blk, list) and any(node is b for b in blk):
+                k = [i for i, b in enumerate(blk) if b is node][0]
+                for prev in blk[:k]:
+                    if isinstance(prev, ast.If) and _terminates(prev.body) and guard_implies(prev.test, False, atom_test):
+                        return True
+                    if isinstance(prev, ast.If) and prev.orelse and _terminates(prev.orelse) and guard_implies(prev.test, True, atom_test):
+                        return True
+        node = p
+    return False
+
+
+# --------------------------------------------------------------------------- range clamps
+def unclamp(node):
+    """min(max(X, lo), hi) / max(min(X, hi), lo) with constant bounds -> X.  Returns (copy of node with every such clamp
+    replaced by its operand, [(lo, hi), ...]).  Inside the range the clamp is the identity; the caller checks that the range is
+    the legal range of the quantity."""
+    from .model import fresh
+
+    found = []
+
+    def num(n):
+        if isinstance(n, ast.Constant) and isinstance(n.value, (int, float)) and not isinstance(n.value, bool):
+            return n.value
+        if isinstance(n, ast.UnaryOp) and isinstance(n.op, ast.USub) and isinstance(n.operand, ast.Constant) and isinstance(n.operand.value, (int, float)):
+            return -n.operand.value
+        return None
+
+    def one(call, fname):
+        """fname(X, c) or fname(c, X) -> (X, c)"""
+        if isinstance(call, ast.Call) and isinstance(call.func, ast.Name) and call.func.id == fname and len(call.args) == 2 and not call.keywords:
+            a, b = call.args
+            if num(b) is not None and num(a) is None:
+                return a, num(b)
+            if num(a) is not None and num(b) is None:
+                return b, num(a)
+        return None
+
+    class T(ast.NodeTransformer):
+        def visit_Call(self, n):
+            self.generic_visit(n)
+            outer = one(n, "min")
+            if outer:
+                inner = one(outer[0], "max")
+                if inner and inner[1] <= outer[1]:
+                    found.append((inner[1], outer[1]))
+                    return inner[0]
+            outer = one(n, "max")
+            if outer:
+                inner = one(outer[0], "min")
+                if inner and outer[1] <= inner[1]:
+                    found.append((outer[1], inner[1]))
+                    return inner[0]
+            return n
+
+    new = T().visit(fresh(node))
+    return new, found
